@@ -233,6 +233,7 @@ type Runner struct {
 	VerifDir string
 	Bin      string
 	RaceBin  string
+	CoverBin string
 	Prop     string
 	Tier     string
 	Seed     int64
@@ -626,6 +627,10 @@ func (r *Runner) Run() int {
 	if fin, ok := r.W.(Finisher); ok {
 		fin.Finish(agg)
 	}
+	var coverage map[string]interface{}
+	if r.CoverBin != "" {
+		coverage = r.coveragePass()
+	}
 
 	// 3. verdicts
 	explained := map[string]int{}
@@ -703,6 +708,9 @@ func (r *Runner) Run() int {
 		"known_findings_reproduced_by_witness": kfReproduced,
 		"generated_cases_explained_by_known_finding": explained,
 		"unexplained_violations":                     unexplained,
+	}
+	if coverage != nil {
+		cov["library_statement_coverage"] = coverage
 	}
 	if ex, ok := r.W.(interface {
 		Exhaustive(tier string) (bool, string)
@@ -872,4 +880,78 @@ func (r *Runner) ReplayFile(path string) int {
 		fmt.Printf("HELD property=%s case passes on the current tree\n", r.Prop)
 	}
 	return exit
+}
+
+// coveragePass re-runs the property's QUICK case list on a -cover build of the worker and
+// reports which part of the library the workload reaches (evidence only, never a verdict).
+func (r *Runner) coveragePass() map[string]interface{} {
+	dir := filepath.Join(r.workDir, "cov")
+	os.MkdirAll(dir, 0o755)
+	sub := filepath.Join(r.workDir, "covrun")
+	os.MkdirAll(sub, 0o755)
+	cases := r.W.Cases("quick", r.Seed, r.KF)
+	n := 0
+	for _, c := range cases {
+		if !c.HasOpt("race") {
+			n++
+		}
+	}
+	nsh := 16
+	if n < nsh {
+		nsh = n
+	}
+	var wg sync.WaitGroup
+	for s := 0; s < nsh; s++ {
+		wg.Add(1)
+		go func(s int) {
+			defer wg.Done()
+			cmd := exec.Command(r.CoverBin, "worker", r.Prop, "quick", fmt.Sprint(r.Seed), fmt.Sprint(s), fmt.Sprint(nsh), "0", "0", sub, "plain")
+			cmd.Env = append(r.env(false), "GOCOVERDIR="+dir)
+			done := make(chan error, 1)
+			if cmd.Start() != nil {
+				return
+			}
+			go func() { done <- cmd.Wait() }()
+			select {
+			case <-done:
+			case <-time.After(10 * time.Minute):
+				cmd.Process.Kill()
+				<-done
+			}
+		}(s)
+	}
+	wg.Wait()
+	out := map[string]interface{}{"workload": "quick case list of this property on a -cover worker"}
+	pc, err := exec.Command("go", "tool", "covdata", "percent", "-i="+dir, "-pkg=github.com/vogo/gohessian").CombinedOutput()
+	if err != nil {
+		out["error"] = strings.TrimSpace(string(pc))
+		return out
+	}
+	for _, l := range strings.Split(string(pc), "\n") {
+		if i := strings.Index(l, "coverage:"); i >= 0 {
+			out["percent"] = strings.TrimSpace(l[i+len("coverage:"):])
+		}
+	}
+	prof := filepath.Join(r.workDir, "cov.txt")
+	if b, err := exec.Command("go", "tool", "covdata", "textfmt", "-i="+dir, "-o="+prof, "-pkg=github.com/vogo/gohessian").CombinedOutput(); err != nil {
+		out["error"] = strings.TrimSpace(string(b))
+		return out
+	}
+	cmd := exec.Command("go", "tool", "cover", "-func="+prof)
+	cmd.Dir = r.VerifDir
+	fb, err := cmd.CombinedOutput()
+	if err != nil {
+		out["func_error"] = strings.TrimSpace(string(fb))
+		return out
+	}
+	var never []string
+	for _, l := range strings.Split(string(fb), "\n") {
+		f := strings.Fields(l)
+		if len(f) == 3 && f[2] == "0.0%" {
+			never = append(never, f[1])
+		}
+	}
+	sort.Strings(never)
+	out["functions_never_entered"] = never
+	return out
 }
